@@ -4,55 +4,12 @@ use std::io::{BufRead, Write};
 use std::panic::{catch_unwind, AssertUnwindSafe};
 
 mod util;
-
-/// Counting allocator: lets a harness function report the peak heap growth of one parser call (C03).
-pub mod meter {
-    use std::alloc::{GlobalAlloc, Layout, System};
-    use std::sync::atomic::{AtomicUsize, Ordering};
-    pub struct Counting;
-    static CUR: AtomicUsize = AtomicUsize::new(0);
-    static PEAK: AtomicUsize = AtomicUsize::new(0);
-    unsafe impl GlobalAlloc for Counting {
-        unsafe fn alloc(&self, l: Layout) -> *mut u8 {
-            let p = System.alloc(l);
-            if !p.is_null() {
-                let c = CUR.fetch_add(l.size(), Ordering::Relaxed) + l.size();
-                PEAK.fetch_max(c, Ordering::Relaxed);
-            }
-            p
-        }
-        unsafe fn dealloc(&self, p: *mut u8, l: Layout) {
-            System.dealloc(p, l);
-            CUR.fetch_sub(l.size(), Ordering::Relaxed);
-        }
-        unsafe fn realloc(&self, p: *mut u8, l: Layout, new_size: usize) -> *mut u8 {
-            let q = System.realloc(p, l, new_size);
-            if !q.is_null() {
-                if new_size >= l.size() {
-                    let c = CUR.fetch_add(new_size - l.size(), Ordering::Relaxed) + (new_size - l.size());
-                    PEAK.fetch_max(c, Ordering::Relaxed);
-                } else {
-                    CUR.fetch_sub(l.size() - new_size, Ordering::Relaxed);
-                }
-            }
-            q
-        }
-    }
-    /// Start measuring: returns the baseline.
-    pub fn start() -> usize {
-        let c = CUR.load(Ordering::Relaxed);
-        PEAK.store(c, Ordering::Relaxed);
-        c
-    }
-    /// Peak heap growth since `start`.
-    pub fn peak_since(base: usize) -> usize {
-        PEAK.load(Ordering::Relaxed).saturating_sub(base)
-    }
-}
-
-#[global_allocator]
-static ALLOC: meter::Counting = meter::Counting;
 include!(concat!(env!("OUT_DIR"), "/mods.rs"));
+
+/// Peak-allocation meter used by the C03 parts; the counting global allocator itself lives in x_alloc.rs.
+pub mod meter {
+    pub use crate::x_alloc::{peak_since, start};
+}
 
 fn dispatch(name: &str, args: &[&str]) -> String {
     for t in TABLES {
